@@ -12,6 +12,7 @@ import (
 	"io"
 	"strings"
 	"sync"
+	"time"
 )
 
 // Event is one entry of the scenario's single ordered journal: coordinator
@@ -54,7 +55,11 @@ type world struct {
 	count    map[string]int  // occurrences of each command kind so far (fault addressing)
 	faults   map[string]bool // "<KIND>:<n>" => the n-th (0-based) command of that kind fails
 	other    []string        // statements that are neither XA nor the business statement
+	slow     bool            // the next business statement takes a while
 }
+
+func (w *world) setSlow(b bool) { w.mu.Lock(); w.slow = b; w.mu.Unlock() }
+func (w *world) nconnNow() int  { w.mu.Lock(); defer w.mu.Unlock(); return w.nconn }
 
 func newWorld(version string, faults []Fault) *world {
 	w := &world{version: version, open: map[int]bool{}, cur: map[int]string{}, branches: map[string]*xaBranch{},
@@ -102,6 +107,11 @@ func (w *world) exec(c int, q string) error {
 	ev := Event{K: "sql", Conn: c, Cmd: cmd, ID: id}
 	if cmd == "STMT" {
 		ev.ID = w.cur[c]
+		if w.slow {
+			w.mu.Unlock()
+			time.Sleep(2 * time.Millisecond)
+			w.mu.Lock()
+		}
 	}
 	if w.faulted(cmd) {
 		ev.Res = "fault"
